@@ -82,6 +82,9 @@ func VH_C06_batch() {
 		vCover("successful-items-yield-nil")
 		m.nilOut = true
 	}
+	if k := vParam("shapes", 1); k > 1 {
+		m.anyPrep = vChoice("prepPayloadShape", k)
+	}
 	b := bNode(m, c06Exec(m))
 	_, err := Run(m.ctx, b, NewSharedStore())
 	if err != nil {
